@@ -388,25 +388,12 @@ func c09SeriesSig(ts map[uint32]string) string {
 	return sb.String()
 }
 
-// input-shape class used as the witness class of a deviation
+// input-shape class used as the witness class of a deviation: exactly the complement of the model's
+// LabelSafe guard (',' or '{' in the metric name or a label value, ',' ':' '{' in a label name)
 func c09Shape(op *c09Op) string {
-	if !op.without {
-		for _, s := range op.series {
-			for _, kv := range s.labels {
-				for _, f := range op.fields {
-					if f != kv[0] && strings.HasSuffix(kv[0], f) {
-						return "promql-group/label-name-is-suffix-of-another"
-					}
-				}
-			}
-		}
-		if strings.Contains(op.name, ":") && len(op.fields) > 0 {
-			return "promql-group/metric-name-contains-colon"
-		}
-	}
 	for _, s := range op.series {
 		for _, kv := range s.labels {
-			if strings.ContainsAny(kv[1], ",:{") || strings.ContainsAny(kv[0], ",:{") {
+			if strings.ContainsAny(kv[1], ",{") || strings.ContainsAny(kv[0], ",:{") {
 				return "promql-group/value-contains-separator"
 			}
 		}
@@ -414,12 +401,29 @@ func c09Shape(op *c09Op) string {
 	if strings.ContainsAny(op.name, ",{") {
 		return "promql-group/value-contains-separator"
 	}
-	for _, f := range op.fields {
-		if strings.ContainsAny(f, ",:{") {
-			return "promql-group/value-contains-separator"
+	return ""
+}
+
+// distribution counters for the input shapes of the repaired defects (no longer witness classes)
+func c09RepairedShapes(op *c09Op) []string {
+	var tags []string
+	if !op.without {
+	outer:
+		for _, s := range op.series {
+			for _, kv := range s.labels {
+				for _, f := range op.fields {
+					if f != kv[0] && strings.HasSuffix(kv[0], f) {
+						tags = append(tags, "shape-label-name-is-suffix-of-another")
+						break outer
+					}
+				}
+			}
+		}
+		if strings.Contains(op.name, ":") && len(op.fields) > 0 {
+			tags = append(tags, "shape-metric-name-contains-colon")
 		}
 	}
-	return ""
+	return tags
 }
 
 func c09HasDupLabelSets(op *c09Op) bool {
@@ -554,6 +558,7 @@ func execC09Agg(f []string) Result {
 	} else {
 		res.Tags = append(res.Tags, "shape-"+strings.TrimPrefix(shape, "promql-group/"))
 	}
+	res.Tags = append(res.Tags, c09RepairedShapes(op)...)
 
 	// ---------------- the property itself
 	emptyVal := false
@@ -676,7 +681,8 @@ func execC09Agg(f []string) Result {
 				// the grouping was right (check (a)); what is left is the value path
 				var sig string
 				switch {
-				case op.without && len(op.fields) == 0:
+				case (!okS || !okC) && op.without && len(op.fields) == 0:
+					// count without () filed under another key than avg/sum without () (repaired; a regression shows here)
 					sig = "promql-agg/count-without-empty-list"
 				case (!okS || !okC) && shape != "":
 					// sum/count filed their value under another key string (e.g. a '{' inside the metric name)
